@@ -402,6 +402,36 @@ def run_operators(spec, tier, seed, res):
                     if not ok:
                         res.violation(f"C05/operator-differs-from-method operator={name} pairing={k1}x{k2}", {"cell": cell, "why": why})
                     res.cell(cell, name)
+    # ---- the documented `out=` form of the ufunc spellings (object and NumPy backends)
+    import copy as _copy
+
+    for system in R.SYSTEMS[dim]:
+        for kind in ("object", "numpy"):
+            a = _vec(kind, dim, r, True, system)
+            b = _vec(kind, dim, r, False, R.SYSTEMS[dim][r.randrange(len(R.SYSTEMS[dim]))])
+            for name, call, meth in (("numpy.add(out=)", lambda o: numpy.add(a, b, out=(o,)), lambda: a.add(b)),
+                                     ("numpy.subtract(out=)", lambda o: numpy.subtract(a, b, out=(o,)), lambda: a.subtract(b)),
+                                     ("numpy.multiply(out=)", lambda o: numpy.multiply(a, 1.5, out=(o,)), lambda: a.scale(1.5)),
+                                     ("numpy.negative(out=)", lambda o: numpy.negative(a, out=(o,)), lambda: a.scale(-1)),
+                                     ("numpy.true_divide(out=)", lambda o: numpy.true_divide(a, 4.0, out=(o,)), lambda: a.scale(0.25))):
+                res.evaluations += 1
+                try:
+                    want = meth()
+                    target = _copy.deepcopy(want).scale(0.0) if kind == "object" else want.copy()
+                    if kind == "numpy":
+                        numpy.asarray(target).view(numpy.ndarray).fill(0)
+                        target = numpy.asarray(target).view(type(want))
+                    ret = call(target)
+                except Exception as e:
+                    res.violation(f"C05/ufunc-out-form-raises form={name} backend={kind}", {"system": R.sysname(system), "exc": f"{type(e).__name__}: {e}"[:300]})
+                    continue
+                ok1, why1 = same(ret, want)
+                ok2, why2 = same(target, want)
+                if not ok1:
+                    res.violation(f"C05/ufunc-out-form-returns-wrong-result form={name} backend={kind}", {"system": R.sysname(system), "why": why1})
+                if not ok2:
+                    res.violation(f"C05/ufunc-out-form-does-not-fill-out form={name} backend={kind}", {"system": R.sysname(system), "why": why2})
+                res.cell(R.sysname(system), kind, name)
     res.sample({"part": "operators", "dim": dim})
 
 
